@@ -111,7 +111,10 @@ Record file := mkfile {
   f_vec : option Qc;          (* vector_order.get_ordinate(meta), idem *)
   f_meta : list (str * Qc);   (* constant meta values (numbers) of the guess keys; absent = None *)
   f_tr : option Qc;           (* meta.get('RepetitionTime') *)
-  f_phase : option str        (* meta.get('InPlanePhaseEncodingDirection') *)
+  f_phase : option str;       (* meta.get('InPlanePhaseEncodingDirection') *)
+  f_dtype : nat;              (* dtype of the file's own array: 0 = int16, 1 = uint16, other codes = other dtypes *)
+  f_bits : nat;               (* get_meta('BitsStored', default=16) *)
+  f_has_acq : bool            (* get_meta('AcquisitionTime') != None *)
 }.
 
 Fixpoint meta_get (m : list (str * Qc)) (k : str) : option Qc :=
@@ -236,7 +239,7 @@ Definition entry_leb (a b : entry) : bool := tuple_leb (e_tuple a) (e_tuple b).
 Definition entry_pos_leb (a b : entry) : bool := qc_leb (t_pos (e_tuple a)) (t_pos (e_tuple b)).
 
 Definition dflt_tuple : tuple := (None, None, Q2Qc 0).
-Definition dflt_file : file := mkfile 0 false 0 0 [] [] (Q2Qc 0) None None [] None None.
+Definition dflt_file : file := mkfile 0 false 0 0 [] [] (Q2Qc 0) None None [] None None 0 16 false.
 Definition dflt_entry : entry := (dflt_file, dflt_tuple).
 
 (** the exhaustive check of lines 598-621 on the arranged list *)
@@ -359,7 +362,13 @@ Definition ids (fi : list entry) : list nat := map (fun e => f_id (e_file e)) fi
 (** number of 3-D volumes as the code recomputes it from a shape tuple *)
 Definition nvols_of_shape (sh : list nat) : nat := nth 3 sh 1 * nth 4 sh 1.
 
-(** the array is determined by the order of the files and the shape *)
+(** lines 755-761: the array takes the dtype of the FIRST file of the sorted list; unsigned short with fewer
+    than 16 bits stored becomes signed short *)
+Definition stack_dtype (f : file) : nat :=
+  if Nat.eqb (f_dtype f) 1 && (f_bits f <? 16) then 0 else f_dtype f.
+Definition data_ref (st : state) : file := e_file (nth 0 (files_info st) dflt_entry).
+
+(** the array is determined by the order of the files, the shape, and the dtype of [data_ref] *)
 Definition get_data (st : state) : state * res (list nat * list nat) :=
   let '(st1, r) := get_shape st in
   match r with
@@ -407,7 +416,10 @@ Record nifti_out := mknifti {
   o_vo : vorder;
   o_embed : bool;
   o_tr : option Qc;                   (* pixdim[4] when exactly one, non-None RepetitionTime *)
-  o_phase : option bool               (* Some true: phase = 'ROW' *)
+  o_phase : option bool;              (* Some true: phase = 'ROW' *)
+  o_data_ref : nat;                   (* id of the file whose dtype / BitsStored / shape get_data used *)
+  o_dtype : nat;                      (* the array's dtype code, see [stack_dtype] *)
+  o_has_acq : bool                    (* every file has an AcquisitionTime (fix 75eb235): slice timing is attempted *)
 }.
 
 Definition single_some {A} (l : list (option A)) : option A :=
@@ -426,6 +438,7 @@ Definition to_nifti (st : state) (vo : vorder) (embed : bool) : state * res nift
   match rd with
   | Err e => (st1, Err e)
   | Ok (_, sh) =>
+      let dref := data_ref st1 in
       let '(st2, ra) := get_affine st1 in
       match ra with
       | Err e => (st2, Err e)
@@ -442,7 +455,9 @@ Definition to_nifti (st : state) (vo : vorder) (embed : bool) : state * res nift
                      else st2 in
           (st3, Ok (mknifti (ids (files_info st3)) sh flip i0 col vo embed
                             (single_some (rep_times st3))
-                            (option_map (fun p => str_eqb p row_str) (single_some (pe_dirs st3)))))
+                            (option_map (fun p => str_eqb p row_str) (single_some (pe_dirs st3)))
+                            (f_id dref) (stack_dtype dref)
+                            (forallb (fun e => f_has_acq (e_file e)) (files_info st3))))
       end
   end.
 
@@ -460,7 +475,7 @@ Inductive op :=
 Inductive outcome :=
 | OutAdded
 | OutShape (sh : list nat)
-| OutData (order : list nat) (sh : list nat)
+| OutData (order : list nat) (sh : list nat) (dtype : nat)
 | OutAffine (i0 : nat) (col : option (nat * nat))
 | OutNifti (o : nifti_out).
 
@@ -468,7 +483,7 @@ Definition step (st : state) (o : op) : state * res outcome :=
   match o with
   | OAdd f => match add_dcm st f with Ok st' => (st', Ok OutAdded) | Err e => (st, Err e) end
   | OGetShape => let '(s, r) := get_shape st in (s, rmap OutShape r)
-  | OGetData => let '(s, r) := get_data st in (s, rmap (fun x => OutData (fst x) (snd x)) r)
+  | OGetData => let '(s, r) := get_data st in (s, rmap (fun x => OutData (fst x) (snd x) (stack_dtype (data_ref s))) r)
   | OGetAffine => let '(s, r) := get_affine st in (s, rmap (fun x => OutAffine (fst x) (snd x)) r)
   | OToNifti vo e => let '(s, r) := to_nifti st vo e in (s, rmap OutNifti r)
   | OToNiftiWrapper vo => let '(s, r) := to_nifti_wrapper st vo in (s, rmap OutNifti r)
